@@ -44,7 +44,7 @@ RULE = ("generated Markdown documents (headings, prose of 0-60 lines, lists, quo
         "indented with spaces/tabs or fenced with ```/~~~ of several lengths and indents, recipe/new-recipe, in top level / "
         "quote / bullet and ordered list / on the marker line / quote in list / list in quote / nested list; tab-separated prose and NFD (combining-mark) names before the fault; re-wrapped sibling documents (same listing at the same offset on another line) compiled in the same process; files starting with 1-3 empty lines and / or a byte-order mark; blank lines "
         "and multi-line statements inside blocks; missing final newline / closing fence) with ONE injected fault "
-        "(redefinition, proportion of unknown name, stray token, unclosed parenthesis, a block repeated verbatim after a block that defines a name); listing lines starting with '#' at a statement position of a "
+        "(redefinition, proportion of unknown name, stray token, unclosed parenthesis, a block repeated verbatim after a block that defines a name); faulty lines with tabs as white space and of 80-200 characters (snippet compared exactly); listing lines starting with '#' at a statement position of a "
         "block, written with LF, CRLF and mixed line ends; a case is non-trivial when the fault is not on line 1; "
         "distinct = distinct (text, fault)")
 
@@ -98,7 +98,9 @@ def oracle(text: str, f: Dict[str, Any], res: Optional[Tuple[str, int, int, str]
                 f"Markdown file ({file_lines[f['file_line'] - 1]!r})")
     if not (1 <= line <= len(file_lines)):
         return f"reported line {line} outside the file"
-    if snippet.strip() != f["rline"].strip():
+    # the snippet is the line's recipe text EXACTLY (every character, tabs and trailing blanks included); only the
+    # indentation that marko leaves in front of the line (tab-indented blocks) may differ, by blanks
+    if snippet != f["rline"] and not (snippet.lstrip(" ") == f["rline"].lstrip(" ") and f.get("indent_varies")):
         return f"snippet {snippet!r} is not the recipe text of line {line} ({f['rline']!r})"
     if snippet.strip() not in file_lines[line - 1].expandtabs(4) and snippet.strip() not in file_lines[line - 1]:
         return f"snippet {snippet!r} is not part of file line {line} ({file_lines[line - 1]!r})"
@@ -242,7 +244,8 @@ def doc_cases(rng: random.Random, n_docs: int, faults_per_doc: int, exhaustive: 
                 b = d.blocks()[bi]
                 blocks = d.blocks()
                 group_first = not any(x.kind == "fenced" and x.lang == "new-recipe" for x in blocks[1: bi + 1])
-                f = dict(d.fault, j=j, file_line=file_line, rline=rline, start_line=b.start_line)
+                f = dict(d.fault, j=j, file_line=file_line, rline=rline, start_line=b.start_line,
+                         indent_varies=(b.kind == "indented" and "\t" in b.tab_indent))
                 nst = len(b.stmts)
                 tags = [f"fault:{kind}", f"container:{b.container}",
                         "block:" + (b.kind if b.kind == "indented" else "fenced" + b.fence[0]),
@@ -256,6 +259,7 @@ def doc_cases(rng: random.Random, n_docs: int, faults_per_doc: int, exhaustive: 
                 if not d.final_newline:
                     tags.append("no-final-newline")
                 tags.append("file-start:" + d.lead)
+                tags.append("fault-line:" + d.fault.get("shape", "plain"))
                 if any(l.lstrip().startswith("#") for st in b.stmts[: d.fault["stmt"]] for l in st):
                     tags.append("hash-line-before-fault")
                 if b.stmts and any("\u0303" in l or "\u0300" in l or "\u0301" in l
@@ -271,7 +275,7 @@ def doc_cases(rng: random.Random, n_docs: int, faults_per_doc: int, exhaustive: 
                         text2, _l2 = mddocs.render(d2, eol)
                         _b2, j2, file_line2, rline2 = mddocs.fault_location(d2)
                         f2 = dict(d2.fault, j=j2, file_line=file_line2, rline=rline2,
-                                  start_line=d2.blocks()[bi].start_line)
+                                  start_line=d2.blocks()[bi].start_line, indent_varies=f["indent_varies"])
                         if file_line2 != file_line:
                             cases.append(make_case(text2, f2, tags + ["sibling-rewrapped"], after=[text]))
     return cases
